@@ -215,13 +215,57 @@ Definition proc0 : proc := mkProc (vol0 cfg_q) (vol0 cfg_c) (vol0 cfg_s) false.
 
 (* registry index: 0 qnames, 1 containers, 2 singletons *)
 (* FailWrite / StopAfter count the write calls of a Rename (they do not apply to a start) *)
-Inductive fault := NoFault | FailBatch (r : N) | FailVer (r : N) | FailWrite (k : N) | StopAfter (k : N).
+(* FailNthBatch k: the k-th PutBatch a start issues (whichever registry it belongs to) fails *)
+Inductive fault := NoFault | FailBatch (r : N) | FailVer (r : N) | FailWrite (k : N) | StopAfter (k : N)
+                 | FailNthBatch (k : N).
 
-Definition fault_for (f : fault) (r : N) : rfault :=
+(* the failure registry r sees when n PutBatch calls were issued by the start before it *)
+Definition fault_at (f : fault) (r n : N) : rfault :=
   match f with
   | FailBatch r' => if r =? r' then RFailBatch else RNoFault
   | FailVer r' => if r =? r' then RFailVer else RNoFault
+  | FailNthBatch k => if n + 1 =? k then RFailBatch else RNoFault
   | _ => RNoFault
+  end.
+
+(* the registry object Prepare would store, if it gets as far as store() (the rows PutBatch is issued) *)
+Definition plan (c : rcfg) (p : pers) (v : vol) (names : list bytes) : option mem :=
+  let ver := merged_ver p v in
+  if 1 <? ver then None
+  else
+    let '(m1, ok) := if reads c ver then load_rows c (p_rows p) (v_mem v) else (v_mem v, true) in
+    if negb ok then None
+    else
+      let s := collect_all c m1 (v_changed v) names in
+      if cs_err s then None else if cs_changed s then Some (cs_mem s) else None.
+
+Definition batches (c : rcfg) (p : pers) (v : vol) (names : list bytes) : N :=
+  match plan c p v names with Some _ => 1 | None => 0 end.
+
+(* storage write calls as the recording wrapper sees them (attempted calls, in order):
+   CBatch r n = PutBatch of n rows into the view of registry r; CPut r = a single-row Put into it;
+   CVer r = Put of the version row of registry r *)
+Inductive scall := CBatch (r n : N) | CPut (r : N) | CVer (r : N).
+
+Definition scall_eqb (a b : scall) : bool :=
+  match a, b with
+  | CBatch r n, CBatch r' n' => (r =? r') && (n =? n')
+  | CPut r, CPut r' => r =? r'
+  | CVer r, CVer r' => r =? r'
+  | _, _ => false
+  end.
+
+Definition nkept (c : rcfg) (es : rows) : N := N.of_nat (length (filter (fun e => keep c (snd e)) es)).
+
+Definition prep_calls (c : rcfg) (r : N) (p : pers) (v : vol) (names : list bytes) (f : rfault) : list scall :=
+  match plan c p v names with
+  | None => []
+  | Some m =>
+      CBatch r (nkept c (m_names m)) ::
+      match f with
+      | RFailBatch => []
+      | _ => if merged_ver p v =? 1 then [] else [CVer r]
+      end
   end.
 
 Definition rn_fault_for (f : fault) : rnfault :=
@@ -231,6 +275,7 @@ Definition rn_fault_for (f : fault) : rnfault :=
   | FailVer r => if r =? 0 then RnVer else RnNone
   | FailWrite k => RnWrite k
   | StopAfter k => RnStop k
+  | FailNthBatch _ => RnNone
   end.
 
 Inductive action :=
@@ -246,20 +291,68 @@ Definition state := (sys * proc)%type.
 (* AppConfigType.prepare: versions, qnames, containers, singletons; the first error aborts the
    start and leaves the objects as they are *)
 Definition run_start (s : sys) (pr : proc) (qn cn sn : list bytes) (f : fault) : state * sout :=
-  let '(q', vq, rq) := prepare cfg_q (s_q s) (pr_q pr) qn (fault_for f 0) in
+  let n1 := batches cfg_q (s_q s) (pr_q pr) qn in
+  let n2 := n1 + batches cfg_c (s_c s) (pr_c pr) cn in
+  let '(q', vq, rq) := prepare cfg_q (s_q s) (pr_q pr) qn (fault_at f 0 0) in
   match rq with
   | RErr e => ((mkSys q' (s_c s) (s_s s), mkProc vq (pr_c pr) (pr_s pr) false), SErr e)
   | ROk mq =>
-      let '(c', vc, rc) := prepare cfg_c (s_c s) (pr_c pr) cn (fault_for f 1) in
+      let '(c', vc, rc) := prepare cfg_c (s_c s) (pr_c pr) cn (fault_at f 1 n1) in
       match rc with
       | RErr e => ((mkSys q' c' (s_s s), mkProc vq vc (pr_s pr) false), SErr e)
       | ROk mc =>
-          let '(s', vs, rs) := prepare cfg_s (s_s s) (pr_s pr) sn (fault_for f 2) in
+          let '(s', vs, rs) := prepare cfg_s (s_s s) (pr_s pr) sn (fault_at f 2 n2) in
           match rs with
           | RErr e => ((mkSys q' c' s', mkProc vq vc vs false), SErr e)
           | ROk ms => ((mkSys q' c' s', mkProc vq vc vs true), SOk mq mc ms)
           end
       end
+  end.
+
+Definition start_calls (s : sys) (pr : proc) (qn cn sn : list bytes) (f : fault) : list scall :=
+  let n1 := batches cfg_q (s_q s) (pr_q pr) qn in
+  let n2 := n1 + batches cfg_c (s_c s) (pr_c pr) cn in
+  prep_calls cfg_q 0 (s_q s) (pr_q pr) qn (fault_at f 0 0) ++
+  match snd (prepare cfg_q (s_q s) (pr_q pr) qn (fault_at f 0 0)) with
+  | RErr _ => []
+  | ROk _ =>
+      prep_calls cfg_c 1 (s_c s) (pr_c pr) cn (fault_at f 1 n1) ++
+      match snd (prepare cfg_c (s_c s) (pr_c pr) cn (fault_at f 1 n1)) with
+      | RErr _ => []
+      | ROk _ => prep_calls cfg_s 2 (s_s s) (pr_s pr) sn (fault_at f 2 n2)
+      end
+  end.
+
+Definition call_of (c : rcfg) (w : wop) : scall :=
+  match w with WBatch es => CBatch 0 (nkept c es) | WPut _ _ => CPut 0 | WVer => CVer 0 end.
+
+Fixpoint exec_calls (c : rcfg) (abort : bool) (f : rnfault) (k : N) (ws : list wop) : list scall :=
+  match ws with
+  | [] => []
+  | w :: r => call_of c w :: (if wfails f k w && abort then [] else exec_calls c abort f (k + 1) r)
+  end.
+
+Definition rename_calls (c : rcfg) (p : pers) (old new : bytes) (f : rnfault) : list scall :=
+  if lex_eqb old new then []
+  else if 1 <? p_ver p then []
+  else
+    let '(m, ok) := if reads c (p_ver p) then load_rows c (p_rows p) (mem0 c) else (mem0 c, true) in
+    if negb ok then []
+    else match sm_get old (m_names m), sm_get new (m_names m) with
+         | Some id, None =>
+             let ws := if c_atomic c
+                       then WBatch (sm_put new id (sm_put old 0 (m_names m))) :: (if p_ver p =? 1 then [] else [WVer])
+                       else [WPut new id; WPut old 0] in
+             exec_calls c (c_atomic c) f 1 ws
+         | _, _ => []
+         end.
+
+Definition step_calls (st : state) (a : action) : list scall :=
+  let '(s, pr) := st in
+  match a with
+  | AStart qn cn sn f => start_calls s proc0 qn cn sn f
+  | ARetry qn cn sn f => if pr_ready pr then [] else start_calls s pr qn cn sn f
+  | ARename old new f => rename_calls cfg_q (s_q s) old new (rn_fault_for f)
   end.
 
 Definition sys_step (st : state) (a : action) : state * sout :=
@@ -299,9 +392,9 @@ Inductive recop :=
 | RPanic.
 
 Inductive step :=
-| TStart (retry : bool) (qn cn sn docs : list bytes) (f : fault) (code : N) (d : dump)
+| TStart (retry : bool) (qn cn sn docs : list bytes) (f : fault) (calls : list scall) (code : N) (d : dump)
          (qids sids : list (bytes * option N)) (recs : list recop)
-| TRename (old new : bytes) (f : fault) (code : N) (d : dump).
+| TRename (old new : bytes) (f : fault) (calls : list scall) (code : N) (d : dump).
 
 Record trace := mkTrace { t_init : dump; t_steps : list step }.
 
@@ -389,18 +482,20 @@ Definition code_of (o : sout) : N := match o with SOk _ _ _ => 0 | SErr e => e e
 Fixpoint agrees_from (st : state) (stored : rstore) (t : list step) : bool :=
   match t with
   | [] => true
-  | TStart retry qn cn sn docs f code d qids sids recs :: rest =>
-      let '(st', o) := sys_step st (if retry then ARetry qn cn sn f else AStart qn cn sn f) in
-      (code_of o =? code) && dump_agrees (fst st') d &&
+  | TStart retry qn cn sn docs f calls code d qids sids recs :: rest =>
+      let a := if retry then ARetry qn cn sn f else AStart qn cn sn f in
+      let '(st', o) := sys_step st a in
+      (code_of o =? code) && dump_agrees (fst st') d && list_eqb scall_eqb (step_calls st a) calls &&
       match o with
       | SOk mq mc ms =>
           lookups_agree mq qids && lookups_agree ms sids &&
           (let '(ok, stored') := recs_agree mq mc qn docs stored recs in ok && agrees_from st' stored' rest)
       | SErr _ => agrees_from st' stored rest
       end
-  | TRename old new f code d :: rest =>
+  | TRename old new f calls code d :: rest =>
       let '(st', o) := sys_step st (ARename old new f) in
-      (code_of o =? code) && dump_agrees (fst st') d && agrees_from st' stored rest
+      (code_of o =? code) && dump_agrees (fst st') d &&
+      list_eqb scall_eqb (step_calls st (ARename old new f)) calls && agrees_from st' stored rest
   end.
 
 Definition agrees (t : trace) : bool := agrees_from (sys_of (t_init t), proc0) (mkRst [] []) (t_steps t).
@@ -527,7 +622,7 @@ Definition touches (a b : bytes) (e : bytes * bytes * N) : bool :=
 Fixpoint satisfies_from (o : ost) (t : list step) : bool :=
   match t with
   | [] => true
-  | TStart retry qn cn sn docs f code d qids sids recs :: rest =>
+  | TStart retry qn cn sn docs f _ code d qids sids recs :: rest =>
       if code =? 99 then false   (* the start panicked *)
       else if code =? 0 then
         let gq := fun n => lookup_o n qids in
@@ -546,7 +641,7 @@ Fixpoint satisfies_from (o : ost) (t : list step) : bool :=
          ok && satisfies_from (mkOst (learn kq gq (dedup qn)) (learn (o_kc o) gc (dedup cn))
                                      (learn ks gs (dedup sn)) written' (if fresh then [] else o_pend o) fresh) rest)
       else satisfies_from (mkOst (o_kq o) (o_kc o) (o_ks o) (o_written o) (o_pend o) (negb retry || o_newproc o)) rest
-  | TRename old new f code d :: rest =>
+  | TRename old new f _ code d :: rest =>
       let pend := filter (fun e => negb (touches old new e)) (o_pend o) in
       if code =? 99 then false   (* the Rename panicked *)
       else if code =? 0 then
